@@ -98,7 +98,13 @@ def to_rt(t, td_specs=None):
             return ("generator",) + tuple(to_rt(a, td_specs) for a in args)
         return ("generator", ANY, ANY, ANY)
     if origin is not None:
-        return ("unknown", repr(t))
+        # a generic this reference does not interpret (Deque[...], OrderedDict[...], a user Generic): unknown as a whole, but its
+        # arguments are kept as sub-terms so that what sits inside (TypedDicts, classes) is still seen by the walks
+        try:
+            subs = tuple(to_rt(a, td_specs) for a in args if not isinstance(a, (list, tuple)) and a is not Ellipsis)
+        except Exception:
+            subs = ()
+        return ("unknown", repr(t), subs)
     if isinstance(t, type):
         return ("cls", t)
     return ("unknown", repr(t))
@@ -148,6 +154,8 @@ def children(rt):
         return (list(rt[1]) if isinstance(rt[1], tuple) else []) + [rt[2]]
     if k == "td":
         return [t for _, t in rt[1]] + [t for _, t in rt[2]]
+    if k == "unknown" and len(rt) > 2:
+        return list(rt[2])
     return []
 
 
